@@ -339,6 +339,8 @@ func c08Consistent(ops []c08Op, initial uint64) bool {
 	return true
 }
 
+var c08Seq1Skipped int
+
 type c08Mon struct {
 	rec        *vRecorder
 	stream     string
@@ -461,6 +463,11 @@ func (m *c08Mon) after(op c08Op, o c08Obs) {
 		m.fail("seqbuf_stable_safe", "stable-above-hwm", fmt.Sprintf("stable sequence %d above nextSequence-1 = %d", o.Stable, o.Next-1))
 	}
 	// low sequence stamped on rows (db/changes.go) + the real SequenceID.SafeSequence: resuming never passes a skipped sequence
+	// (oldest skipped = 1 is the corner recorded in C08_Refuted.low_seq_hides_sequence_1; the stamping code itself
+	// is not driven by this harness, so that corner is only counted)
+	if len(o.Skip) > 0 && o.Skip[0][0] == 1 {
+		c08Seq1Skipped++
+	}
 	if len(o.Skip) > 0 && o.Skip[0][0] > 1 {
 		low := o.Skip[0][0] - 1
 		for _, q := range []uint64{low, low + 1, o.Next - 1, o.Next, o.Next + 7} {
@@ -492,6 +499,18 @@ func (m *c08Mon) after(op c08Op, o c08Obs) {
 			if !found {
 				m.fail("seqbuf_exactly_once", "arrival-lost", fmt.Sprintf("sequence %d (%s) arrived but is neither delivered nor pending nor abandoned", h.S, h.Kind.coq()))
 			}
+		}
+	}
+	// seqbuf_received_exact, on consistent feeds: receivedSeqs is exactly the set of buffered single sequences
+	if m.consistent {
+		var singles []uint64
+		for _, p := range o.Pend {
+			if p[1] == 0 {
+				singles = append(singles, p[0])
+			}
+		}
+		if fmt.Sprint(singles) != fmt.Sprint(o.Recv) {
+			m.fail("seqbuf_received_exact", "received-set-differs", fmt.Sprintf("receivedSeqs %v, buffered single sequences %v", o.Recv, singles))
 		}
 	}
 	m.prevNext, m.prevSkip, m.prevRecv = o.Next, o.Skip, o.Recv
@@ -667,16 +686,33 @@ func TestVerifC08(t *testing.T) {
 		{100, 0, []c08Op{A(c08Doc, 4, true), H, R(2, 6, false), A(c08Doc, 5, false), A(c08Doc, 8, true), H}},
 		{100, 7, []c08Op{A(c08Doc, 3, false), A(c08Doc, 7, false), A(c08Doc, 0, false), R(2, 5, false), A(c08Doc, 8, false)}},
 		{0, 0, []c08Op{A(c08Doc, 3, false), A(c08Doc, 6, false), A(c08Doc, 1, false), A(c08Doc, 5, false), A(c08Doc, 2, false), A(c08Doc, 4, false)}},
+		// the two witnesses of coq/theories/C08/C08_Refuted.v
+		{100, 0, []c08Op{A(c08Doc, 2, true), H}},
+		{100, 10, []c08Op{R(5, 15, false), A(c08Doc, 16, true), H}},
+		// the history of C08_nonvacuous
+		{100, 10, []c08Op{A(c08Doc, 13, true), A(c08Doc, 15, true), H, R(16, 17, false), A(c08Doc, 11, false), A(c08Doc, 12, false), A(c08Doc, 19, false), A(c08Doc, 12, false)}},
 	}
 	for _, c := range corpus {
 		env.doCase(rec, "corpus", "corpus", c.maxp, c.initial, c.ops, true)
 	}
 
-	// ---- (b) bounded-exhaustive: every arrival order of a window with one event delivered twice, for every
-	//      pending-queue threshold; window of 4 evaluated in Coq in the quick tier, window of 5 monitored in
-	//      Go in the quick tier (a deterministic quarter of it also goes to Coq) and evaluated in Coq in full
-	//      in the thorough tier ----
+	// ---- (b) bounded-exhaustive: every arrival order of a window with one event delivered twice at every later
+	//      position, fresh and aged+housekeeping, for every pending-queue threshold.  Every trace is monitored in
+	//      Go.  Evaluated on the model in Coq: window of 3 always in full; window of 4 in full at initial sequence 0
+	//      (a deterministic quarter at initial sequence 10 in the quick tier); window of 5 a deterministic 1/24 in
+	//      the quick tier; everything in the thorough tier ----
 	nExh := 0
+	for _, maxp := range thresholds {
+		for _, initial := range []uint64{0, 10} {
+			for rangeAt := 0; rangeAt <= 2; rangeAt++ {
+				c08Exhaustive(c08Window(initial, 3, rangeAt), func(ops []c08Op) {
+					env.doCase(rec, "exhaustive", "window3", maxp, initial, ops, true)
+					nExh++
+				})
+			}
+		}
+	}
+	n4 := 0
 	for _, maxp := range thresholds {
 		for _, initial := range []uint64{0, 10} {
 			for rangeAt := 0; rangeAt <= 3; rangeAt++ {
@@ -684,7 +720,8 @@ func TestVerifC08(t *testing.T) {
 					continue
 				}
 				c08Exhaustive(c08Window(initial, 4, rangeAt), func(ops []c08Op) {
-					env.doCase(rec, "exhaustive", "window4", maxp, initial, ops, true)
+					n4++
+					env.doCase(rec, "exhaustive", "window4", maxp, initial, ops, vThorough() || initial == 0 || n4%4 == 0)
 					nExh++
 				})
 			}
@@ -698,19 +735,19 @@ func TestVerifC08(t *testing.T) {
 			}
 			c08Exhaustive(c08Window(20, 5, rangeAt), func(ops []c08Op) {
 				n5++
-				env.doCase(rec, "exhaustive", "window5", maxp, 20, ops, vThorough() || n5%8 == 0)
+				env.doCase(rec, "exhaustive", "window5", maxp, 20, ops, vThorough() || n5%24 == 0)
 				nExh++
 			})
 		}
 	}
 	rec.Extra("exhaustive", true)
 	rec.Extra("exhaustive_traces", nExh)
-	rec.Extra("exhaustive_scope", "all arrival orders x one event delivered twice at every later position x {fresh, aged+housekeeping} x CachePendingSeqMaxNum in {0,1,2,100}; windows of 4 (with an unused range at each position) and 5")
+	rec.Extra("exhaustive_scope", "all arrival orders x one event delivered twice at every later position x {fresh, aged+housekeeping} x CachePendingSeqMaxNum in {0,1,2,100}; windows of 3, 4 (with an unused range at each position) and 5; all monitored in Go, Coq-evaluated in full for windows 3 and 4 (initial 0) and by deterministic sample otherwise in the quick tier")
 
 	// ---- (c) random, consistent feed: a window partitioned into documents, principals, unused singles and
 	//      unused ranges, delivered out of order with duplicates, ageing, housekeeping and abandon ----
 	pickMaxp := func() int { return []int{0, 1, 2, 3, 100}[rnd.Intn(5)] }
-	nRand := vBudget(700, 6000)
+	nRand := vBudget(500, 6000)
 	lateSeen := 0
 	for i := 0; i < nRand; i++ {
 		initial := []uint64{0, 1, 7, 1000}[rnd.Intn(4)]
@@ -784,7 +821,7 @@ func TestVerifC08(t *testing.T) {
 	//      nextSequence or the initial sequence, sequences at or below the initial one.  Only the unconditional
 	//      monitors apply.  Not generated: two DIFFERENT pending entries with the same start sequence (the pop
 	//      order of container/heap for equal keys is not modelled); such operations are dropped and counted. ----
-	nAdv := vBudget(700, 6000)
+	nAdv := vBudget(500, 6000)
 	tiesAvoided := 0
 	for i := 0; i < nAdv; i++ {
 		initial := []uint64{0, 3, 6}[rnd.Intn(3)]
@@ -833,6 +870,7 @@ func TestVerifC08(t *testing.T) {
 		env.doCase(rec, "adversarial", "adversarial", maxp, initial, ops, true)
 	}
 	rec.Extra("adversarial_ops_dropped_equal_start_tie", tiesAvoided)
+	rec.Extra("states_with_sequence_1_skipped_low_seq_corner", c08Seq1Skipped)
 
 	// ---- (e) several feed workers delivering concurrently (processEntry serialises on c.lock): final-state
 	//      monitors only ----
